@@ -1,4 +1,5 @@
 import ElexModel.Core.Versioned
+import ElexModel.Gen.C17
 import ElexModel.Lemmas.Num
 import Mathlib.Tactic.FieldSimp
 
@@ -156,5 +157,58 @@ example : estAt (percents exHist) (exHist.map (·.nm)) ((batches exHist).map (fu
   decide +kernel
 example : batchOk (batches [⟨50, 50, 100, 100, 50, 0⟩, ⟨60, 40, 100, 100, 50, 1/5⟩, ⟨110, 90, 200, 200, 100, 1/10⟩])
     = false := by decide +kernel
+
+end ElexModel.Versioned
+
+/-! ### bridge: the scalar formulas, tests and error kinds as they are in `/repo/src` on this run -/
+
+namespace ElexModel.Versioned
+open ElexModel
+
+/-- the estimate of the model is the source's interpolation formula, with `obs_indices = countLe − 1`
+    (`searchsorted(side="right") − 1`) and the guarded division by the percent -/
+theorem bridge_est (p nm b : List ℚ) (perc : ℕ) :
+    estAt p nm b perc =
+      let oi : ℚ := (countLe p perc : ℚ) - 1
+      let i := countLe p perc - 1
+      if perc = 0 then 0 else
+        Gen.C17.est_numerator (Gen.C17.observed_norm_margin oi (nthR nm 0) (nthR nm i))
+          (Gen.C17.observed_vote oi (nthR p i)) (Gen.C17.observed_batch_margin oi (nthR nm 0) (nthR b i)) perc / perc := by
+  unfold estAt Gen.C17.est_numerator Gen.C17.observed_norm_margin Gen.C17.observed_vote Gen.C17.observed_batch_margin
+  by_cases hc : countLe p perc = 0
+  · simp [hc]
+  · have : ((countLe p perc : ℚ) - 1 = -1) ↔ False := by
+      constructor
+      · intro h
+        have : (countLe p perc : ℚ) = 0 := by linarith
+        exact hc (by exact_mod_cast this)
+      · exact False.elim
+    simp [hc, this]
+
+/-- batch margin between two versions: the source's quotient where it is defined (`0/0 ↦ 0` and `±inf` are the two guarded
+    cases of `batches`) -/
+theorem bridge_batch (a b : V) (t : List V) (h : b.weights - a.weights ≠ 0) :
+    (batches (a :: b :: t)).head? =
+      some (some (Gen.C17.batch_margin (b.dem - a.dem) (b.gop - a.gop) (b.weights - a.weights))) := by
+  simp [batches, h, Gen.C17.batch_margin]
+
+theorem bridge_rescale (vs : List V) :
+    percents vs = vs.map (fun v => Gen.C17.rescaled_percent (divz v.turnout (lastD vs).turnout) (lastD vs).pev) := rfl
+
+theorem bridge_correction (nmLast e : ℚ) : Gen.C17.est_correction nmLast e = nmLast - e := rfl
+
+/-- the two irregularity tests (monotone turnout, batch margins within ±1) in this order, and the error kinds -/
+theorem bridge_tests :
+    Gen.C17.tests = ["not np.all(np.diff(results_turnout) >= 0)", "np.abs(batch_margin).max() > 1"] ∧
+    Gen.C17.error_kinds = ["non-monotone percent expected vote", "batch_margin", "none"] ∧
+    Gen.C17.nearest_observed = ["percent_vote[np.clip(obs_indices + 1, 0, len(percent_vote) - 1)]"] := ⟨rfl, rfl, rfl⟩
+
+theorem bridge_shape : Gen.C17.shape =
+    ["batch_margin[np.isnan(batch_margin)] = 0", "max_perc = int(np.max(percent_vote))", "np.arange(0, max_perc + 1)",
+     "np.arange(101)", "np.clip(obs_indices + 1, 0, len(percent_vote) - 1)", "np.clip(obs_indices, 0, len(percent_vote) - 1)",
+     "np.divide(est_margins, percs, where=percs != 0, out=np.zeros_like(est_margins), casting='unsafe')",
+     "np.divide(results_turnout, results_turnout[-1], out=np.zeros_like(results_turnout, dtype=float), where=results_turnout[-1] != 0, casting='unsafe')",
+     "np.searchsorted(percent_vote, percs, side='right')",
+     "obs_indices = np.searchsorted(percent_vote, percs, side='right') - 1"] := rfl
 
 end ElexModel.Versioned
